@@ -64,7 +64,7 @@ func loadVerifier(repo, contractPath string) (*Verifier, error) {
 	if len(pkgs[0].Errors) > 0 {
 		return nil, fmt.Errorf("package does not type-check: %v", pkgs[0].Errors[0])
 	}
-	prog, spkgs := ssautil.AllPackages(pkgs, ssa.BuilderMode(0))
+	prog, spkgs := ssautil.AllPackages(pkgs, ssa.GlobalDebug)
 	prog.Build()
 	v := &Verifier{repo: repo, fset: pkgs[0].Fset, prog: prog, pkg: spkgs[0], funcs: map[string]*ssa.Function{},
 		locTags: map[string]int{}, globalRefs: map[string]bool{}, loopCache: map[*ssa.Function]map[*ssa.BasicBlock]int{},
@@ -248,7 +248,7 @@ func (v *Verifier) verifyFunc(name string) *FuncResult {
 		res.ContractTxt = con.Text
 	}
 	x := &Exec{v: v, fn: fn, con: con, syms: map[string]string{}, heapSorts: map[string]string{}, locfns: map[string]locFn{},
-		strs: map[string]int{}, maxPaths: 4000}
+		strs: map[string]int{}, maxPaths: 4000, ptrArrays: map[string]string{}}
 	if con != nil {
 		x.props = con.Props
 	}
@@ -440,6 +440,17 @@ func (x *Exec) script(o *Obligation) string {
 	for _, s := range x.symOrder {
 		if used[s] && !(strings.HasPrefix(s, "|&") || strings.HasPrefix(s, "&")) {
 			fmt.Fprintf(&sb, "(declare-const %s %s)\n", s, x.syms[s])
+			if strings.HasSuffix(s, "#0|") || strings.HasSuffix(s, "#0") {
+				// closure of the entry heap under allocation: every reference stored in the
+				// heap at entry was allocated before entry
+				name := strings.TrimSuffix(strings.Trim(s, "|"), "#0")
+				switch x.ptrArrays[name] {
+				case "ptr":
+					fmt.Fprintf(&sb, "(assert (forall ((r Int)) (! (or (= (select %s r) 0) (< (birth (select %s r)) now!0)) :pattern ((select %s r)))))\n", s, s, s)
+				case "slice":
+					fmt.Fprintf(&sb, "(assert (forall ((r Int)) (! (or (= (sarr (select %s r)) 0) (< (birth (sarr (select %s r))) now!0)) :pattern ((select %s r)))))\n", s, s, s)
+				}
+			}
 			if strings.HasPrefix(s, "|mem.byte#") {
 				// type invariant of byte memory: every cell holds a value in 0..255
 				fmt.Fprintf(&sb, "(assert (forall ((a Int) (i Int)) (! (and (<= 0 (select (select %s a) i)) (< (select (select %s a) i) 256)) :pattern ((select (select %s a) i)))))\n", s, s, s)
